@@ -29,18 +29,20 @@ import (
 
 var irPtrRe = regexp.MustCompile(`\(unsafe\.Pointer\)\(0x[0-9a-f]+\)`)
 
-var irLibByType = func() map[reflect.Type]string {
-	m := map[reflect.Type]string{}
-	for n, t := range libTypes {
-		m[t] = n
+// library types are registered by several files' init functions: look the name up at call time
+func irLibName(t reflect.Type) (string, bool) {
+	for n, lt := range libTypes {
+		if lt == t {
+			return n, true
+		}
 	}
-	return m
-}()
+	return "", false
+}
 
 // irTypeSx prints a reflect.Type in the grammar of types.go, in the canonical spelling of the Lean side
 // (`Go.typeToString`: int = i64, uint = uptr = u64; []uint8 = bytes)
 func irTypeSx(t reflect.Type) string {
-	if n, ok := irLibByType[t]; ok {
+	if n, ok := irLibName(t); ok {
 		return "(lib " + n + ")"
 	}
 	switch t {
